@@ -194,6 +194,19 @@ pub fn run(tier: &str) -> Result<Report, String> {
                     }
                 }
             }
+            // the same shape with JUMPS: a jump whose body starts with a parenthesised jump / quantifier that is not last
+            for op in &ops {
+                for a in ["a", "AX {y}", "~ {x}"] {
+                    for b in ["a", "{y}", "EX {x}", "~ a"] {
+                        fs.push(crate::formulas::f(&format!("3{{x}}: 3{{y}}: (@{{x}}: ((@{{y}}: {a}) {op} {b}))"), &ctx.user));
+                        fs.push(crate::formulas::f(&format!("!{{x}}: EX (3{{y}}: (@{{x}}: ((@{{y}}: {a}) {op} {b})))"), &ctx.user));
+                        fs.push(crate::formulas::f(&format!("3{{x}}: (@{{x}}: ((!{{y}}: {a}) {op} {}))", b.replace("{y}", "{x}")), &ctx.user));
+                        if rich {
+                            fs.push(crate::formulas::f(&format!("V{{x}}: 3{{y}}: (@{{y}}: ({b} {op} (@{{x}}: {a})))"), &ctx.user));
+                        }
+                    }
+                }
+            }
             fs.extend(crate::formulas::duplicate_templates(ctx.nprops(), 3, true, false).into_iter().step_by(if rich { 1 } else { 4 }));
             // chains of two binary operators in both association orders (precedence / associativity
             // is what decides where parentheses are redundant)
@@ -247,7 +260,7 @@ pub fn run(tier: &str) -> Result<Report, String> {
     }
     rep.evaluations = total_rewrites;
     rep.distinct_nontrivial = distinct_rewrites;
-    rep.rule = format!("for every closed plain formula with <= {m} nodes, every template formula, the family Q1{{x}}: ((Q2{{y}}: A) op B), all chains of two binary operators in both association orders, duplicate templates and every extended formula with <= 3 nodes, on {which:?}: all scope-respecting assignments of the names {POOL:?} to its binders (consistent renaming incl. permutations of the internal names x, xx, xxx), renamings of binders to the names of network variables, whitespace patterns (none where legal, double, tab, newline, NBSP, mixed; everywhere and at each single token boundary), 1-2 redundant parentheses around each sub-formula and around all, the minimal-parentheses rendering and the minimal rendering with one sub-formula keeping its parentheses, long spellings of each/all hybrid operators, constant spellings; the rewritten text must evaluate (model_check_formula / model_check_extended_formula_dirty) to the same set as the canonical text. distinct_nontrivial = number of rewritten texts that differ from the canonical text and from each other (per formula and network), counted with a hash set; evaluations additionally counts the canonical text");
+    rep.rule = format!("for every closed plain formula with <= {m} nodes, every template formula, the family Q1{{x}}: ((Q2{{y}}: A) op B) and its jump version @{{x}}: ((@{{y}}: A) op B), all chains of two binary operators in both association orders, duplicate templates and every extended formula with <= 3 nodes, on {which:?}: all scope-respecting assignments of the names {POOL:?} to its binders (consistent renaming incl. permutations of the internal names x, xx, xxx), renamings of binders to the names of network variables, whitespace patterns (none where legal, double, tab, newline, NBSP, mixed; everywhere and at each single token boundary), 1-2 redundant parentheses around each sub-formula and around all, the minimal-parentheses rendering and the minimal rendering with one sub-formula keeping its parentheses, long spellings of each/all hybrid operators, constant spellings; the rewritten text must evaluate (model_check_formula / model_check_extended_formula_dirty) to the same set as the canonical text. distinct_nontrivial = number of rewritten texts that differ from the canonical text and from each other (per formula and network), counted with a hash set; evaluations additionally counts the canonical text");
     rep.assumptions.push("the rewrite generator only produces meaning-preserving variants by construction (consistent renaming respecting scopes, whitespace only between tokens, balanced extra parentheses)".into());
     Ok(rep)
 }
